@@ -262,6 +262,13 @@ class Mem:
         for st in keys:
             if st==off and ch[st][1]==n: ch.pop(st); continue
             if st<off+n and st+ch[st][1]>off: s._explode(o,st)
+    def _rechunk(s,o,nb):
+        """objects marked 'rechunk' (small tables indexed symbolically): aligned cells that are a multiple of the access size are split into cells of that size, so that they are candidates of a symbolic-offset access"""
+        for st in sorted(o['ch']):
+            v,n=o['ch'][st]
+            if n>nb and n%nb==0 and st%nb==0 and not isinstance(v,Ptr):
+                o['ch'].pop(st)
+                for k in range(0,n,nb): o['ch'][st+k]=(((v>>(8*k))&((1<<(8*nb))-1)) if is_c(v) else z3.Extract(8*(k+nb)-1,8*k,v),nb)
     def share(s,*names):
         for n in names:
             if n in s.objs: s.objs[n]['shared']=True
@@ -284,6 +291,7 @@ class Mem:
             return
         if not is_c(p.off):
             s.checks.append((p.obj,p.off,nbytes,o['size'],'store'))
+            if o.get('rechunk'): s._rechunk(o,nbytes)
             cands=sorted(k for k in o['ch'] if o['ch'][k][1]==nbytes and not isinstance(o['ch'][k][0],Ptr))
             s.cand_checks.append((p.obj,p.off,tuple(cands),'store'))
             for k in cands:
@@ -307,12 +315,13 @@ class Mem:
             s.checks.append((p.obj,bv(p.off,64),nbytes,o['size'],'load')); return s.symload[p.obj](p.off,nbytes)
         if 'arr' in o:
             off=bv(p.off,64); s.checks.append((p.obj,off,nbytes,o['size'],'load'))
-            return z3.Concat(*[z3.Select(o['arr'],off+k) for k in reversed(range(nbytes))])
+            return z3.Concat(*[z3.Select(o['arr'],off+k) for k in reversed(range(nbytes))]) if nbytes>1 else z3.Select(o['arr'],off)
         if not is_c(p.off) and p.obj in s.symload:
             s.checks.append((p.obj,p.off,nbytes,o['size'],'load')); return s.symload[p.obj](p.off,nbytes)
         if not is_c(p.off):
             # small concrete object, symbolic offset: ite-chain over the written, aligned offsets; extent recorded as a check
             s.checks.append((p.obj,p.off,nbytes,o['size'],'load'))
+            if o.get('rechunk'): s._rechunk(o,nbytes)
             allc=sorted(k for k in o['ch'] if o['ch'][k][1]==nbytes)
             if any(isinstance(o['ch'][k][0],Ptr) for k in allc) and getattr(s,'forker',None) is not None:
                 # cells hold pointers: the index is concretised by solver-driven forking over the cell offsets
@@ -487,7 +496,43 @@ class Interp:
             env[n if n else '%%%d'%k]=a; k+=1
         # unnamed params are %0..%n-1
         for j,a in enumerate(args): env.setdefault('%%%d'%j,a)
-        cur=f.order[0]; prev=None
+        return s._run(f,fname,env,f.order[0],None)
+    def call_at(s,fname,label,args,havoc):
+        """cut-point execution: run `fname` from the start of block `label` to its return. The phis of that block and every value computed before
+        the cut take havoc(name,type) (an arbitrary value of the type, chosen by the harness); stack slots (alloca) become fresh objects with
+        arbitrary contents and address computations on them (getelementptr / bitcast) are re-evaluated."""
+        f=s.mod.funcs[fname]; s.mem.where=fname; interp=s
+        defs={}
+        for b in f.blocks.values():
+            for l in b:
+                m=re.match(r'(%[\w.$-]+) = (.*)$',l)
+                if m: defs[m.group(1)]=l
+        def vtype(rhs):
+            op=rhs.split(' ',1)[0]; rest=rhs[len(op):].strip()
+            rest=re.sub(r'^((nsw|nuw|exact|inbounds|noundef|signext|zeroext|fastcc|tail|notail|musttail)\s+)+','',rest)
+            if op in ('zext','sext','trunc','bitcast','ptrtoint','inttoptr','fptosi','fptoui','sitofp','uitofp'):
+                return interp.tp.parse(rest.rsplit(' to ',1)[1])[0]
+            if op in ('icmp','fcmp'): return interp.tp.parse('i1')[0]
+            if op=='select': rest=rest[rest.index(',')+1:].strip()
+            return interp.tp.parse(rest)[0]
+        class Lazy(dict):
+            def __missing__(d,name):
+                l=defs.get(name)
+                if l is None: raise Unbound('value %s of %s has no definition'%(name,fname))
+                rhs=l.split(' = ',1)[1]; op=rhs.split(' ',1)[0]
+                if op in ('alloca','getelementptr','bitcast'): interp.exec(d,l)
+                else: d[name]=havoc(name,vtype(rhs))
+                return d[name]
+        env=Lazy(); k=0
+        for (t,n),a in zip(f.params,args):
+            env[n if n else '%%%d'%k]=a; k+=1
+        for j,a in enumerate(args): env.setdefault('%%%d'%j,a)
+        for l in f.blocks[label]:
+            m=re.match(r'(%[\w.$-]+) = phi (.*)$',l)
+            if not m: break
+            env[m.group(1)]=havoc(m.group(1),s.tp.parse(m.group(2))[0])
+        return s._run(f,fname,env,label,'<cut>')
+    def _run(s,f,fname,env,cur,prev):
         while True:
             blk=f.blocks[cur]
             # phis evaluated simultaneously
@@ -495,6 +540,7 @@ class Interp:
             for l in blk:
                 m=re.match(r'(%[\w.$-]+) = phi (.*)$',l)
                 if not m: break
+                if prev=='<cut>': continue
                 t,i=s.tp.parse(m.group(2)); rest=m.group(2)[i:]
                 for item in split_top(rest):
                     item=item.strip(); assert item[0]=='[' and item[-1]==']',item
